@@ -669,13 +669,20 @@ def _find_dependencies(component, output_owners, target_time):
     for _, inp in component.inputs.items():
         local_time = target_time
         delayed = False
+        pushed = False
         while isinstance(inp, IInput):
             inp = inp.source
+            if pushed:
+                # adapters upstream of a push-based adapter are pulled at push time,
+                # they do not relax the time up to which the source is required
+                continue
             if isinstance(inp, NoDependencyAdapter):
                 break
             if isinstance(inp, ITimeDelayAdapter):
                 local_time = inp.with_delay(local_time)
                 delayed = True
+            elif isinstance(inp, IAdapter) and inp.needs_push:
+                pushed = True
 
         if not isinstance(inp, NoDependencyAdapter) and not inp.is_static:
             comp = output_owners[inp]
